@@ -9,7 +9,10 @@ namespace Driver.C11
 open Rxn Driver Rxn.Timers
 
 structure St where
+  cache : Nat := 1073741824     -- timer cache bytes of the operator (`size.GB` unless the harness shrinks it)
+  ckptDb : Option Timers.DB := none
   kgc : Nat := 1
+  toldSpec : Bool := true   -- compare what the handler is told with the property's own reading (off in C10's operator mode)
   w : Wm.Watermarker := Wm.Watermarker.new 0
   op : Op := ⟨Registry.new (Store.new [] 1 0 1 0) [], [], 1⟩
   -- the property's own reading, computed without the regenerated facts (C11.wm_eq_max_minus, composite_eq_min,
@@ -20,9 +23,12 @@ structure St where
   rw : Wm.Watermarker := Wm.Watermarker.new 0
   rmaxSeen : Int := Wm.zeroTime
   -- the runner's event loop: the output stream so far, the batch size, how much the operator has been shown
-  loopEvs : List Wm.REv := []
+  loopEvs : List Wm.REvK := []
   loopN : Nat := 1
-  loopShown : Nat := 0
+  loopK : Nat := 1                       -- operators of the runner's cluster (header field `runners` in loop cases)
+  loopW : Wm.Watermarker := Wm.Watermarker.new 0   -- the runner's watermarker when the current deployment started
+  loopMax : Int := Wm.zeroTime           -- spec side: largest event timestamp forwarded in earlier deployments
+  loopShown : List Nat := []
   ids : List String := []
   msgs : List (String × Int) := []
 
@@ -30,14 +36,15 @@ def intOr (s : String) : Int := s.toInt?.getD 0
 
 def initSt (hdr : List String) : St :=
   match hdr with
-  | ["M", _, lat, maxBatch, runners, kgc] =>
+  | "M" :: _ :: lat :: maxBatch :: runners :: kgc :: more =>
+    let cache := match more with | c :: _ => natOr c | [] => 1073741824
     let ids := (List.range (natOr runners)).map fun i => s!"sr{i}"
     -- the operator owns the whole key space; its timer cache is `size.GB`
-    let store := Store.new [] (natOr kgc) 0 (natOr kgc) 1073741824
+    let store := Store.new [] (natOr kgc) 0 (natOr kgc) cache
     -- `NewEventBatcher`: `MaxSize == 0` means 1
     let mb := if natOr maxBatch = 0 then 1 else natOr maxBatch
     { w := Wm.Watermarker.new (intOr lat), op := ⟨Registry.new store ids, [], mb⟩, lat := intOr lat, ids := ids,
-      loopN := natOr maxBatch, kgc := natOr kgc }
+      loopN := natOr maxBatch, loopK := natOr runners, kgc := natOr kgc, cache := cache }
   | _ => {}
 
 def showEv : HEv → String
@@ -50,18 +57,21 @@ def showReqs (rs : List Req) : String := if rs.isEmpty then "-" else joinWith ""
 
 def parseInts (s : String) : List Int := if s == "-" then [] else (s.splitOn ",").map intOr
 
-def withSpec (model spec : String) : String :=
-  if model == spec then model else s!"{model} #spec {spec} #kf spec-deviation"
+def withSpecKf (kf model spec : String) : String :=
+  if model == spec then model else s!"{model} #spec {spec} #kf {kf}"
 
-/-- minimum over all configured or reporting runners of the latest report (the epoch if none); `time.Time{}` before any message -/
+def withSpec (model spec : String) : String := withSpecKf "spec-deviation" model spec
+
+/-- the property's own reading: minimum over all configured or reporting runners of the latest report, the epoch for
+a runner that has not reported — also when no runner has reported yet (finding D58: the code tells `time.Time{}` then) -/
 def specComposite (ids : List String) (msgs : List (String × Int)) : Int :=
-  match msgs with
-  | [] => Wm.zeroTime
-  | _ =>
-    let runners := ids ++ msgs.map (·.1)
-    match runners.map (fun id => ((msgs.reverse.find? (·.1 == id)).map (·.2)).getD 0) with
-    | [] => Wm.zeroTime
-    | v :: vs => vs.foldl (fun m x => if x < m then x else m) v
+  let runners := ids ++ msgs.map (·.1)
+  match runners.map (fun id => ((msgs.reverse.find? (·.1 == id)).map (·.2)).getD 0) with
+  | [] => 0
+  | v :: vs => vs.foldl (fun m x => if x < m then x else m) v
+
+/-- the situation of finding D58 (and only that): no watermark message of the current deployment has arrived -/
+def toldKf (msgs : List (String × Int)) : String := if msgs.isEmpty then "D58" else "spec-deviation"
 
 /-- every request of the step must carry the composite -/
 def retold (c : Int) (rs : List Req) : List Req := rs.map fun r => { r with told := c }
@@ -70,45 +80,80 @@ def showSEv : Wm.SEv → String
   | .ev t => s!"k{t}"
   | .wm v => s!"w{v}"
 
-/-- the property's own reading of a delivered stream: each watermark = largest event before it − 1 (the runner's
-watermarker has no allowed lateness) -/
-def respec (m : Int) : List Wm.SEv → List Wm.SEv
+/-- the property's own reading of the stream handed to the operators: each watermark = largest event timestamp
+forwarded before it (to any operator, in any deployment of this runner) − 1 ns (the runner's watermarker has no
+allowed lateness) -/
+def respecTagged (m : Int) : List (Option Nat × Wm.SEv) → List (Option Nat × Wm.SEv)
   | [] => []
-  | .ev t :: s => .ev t :: respec (if t > m then t else m) s
-  | .wm _ :: s => .wm (m - 1) :: respec m s
+  | (d, .ev t) :: s => (d, .ev t) :: respecTagged (if t > m then t else m) s
+  | (d, .wm _) :: s => (d, .wm (m - 1)) :: respecTagged m s
 
-/-- one raw event of a read: `-` = keyed to nothing, `a+b` = keyed to events with these timestamps -/
-def parseRaw (s : String) : Wm.REv := .events (if s == "-" then [] else (s.splitOn "+").map intOr)
+def maxEvTagged (m : Int) : List (Option Nat × Wm.SEv) → Int
+  | [] => m
+  | (_, .ev t) :: s => maxEvTagged (if t > m then t else m) s
+  | (_, .wm _) :: s => maxEvTagged m s
 
-/-- the operator-mode operations (`Timers.Op`: keyed events, watermark messages, source completions, redeployments);
-also the operator mode of C10's driver section — it does not touch the watermarker definitions -/
+/-- one raw event of a read: `-` = keyed to nothing, `t:key+t:key` = keyed to events with these timestamps and keys
+(`t` alone: key `k`); the operator index is `KeySpace.RangeIndex` over 8 key groups and `k` operators -/
+def parseRawK (k : Nat) (s : String) : Wm.REvK :=
+  .events (if s == "-" then [] else (s.splitOn "+").map fun x =>
+    match x.splitOn ":" with
+    | [t, key] => (KeySpace.rangeIndex 8 (if k = 0 then 1 else k) (hexOr key), intOr t)
+    | _ => (KeySpace.rangeIndex 8 (if k = 0 then 1 else k) [0x6b], intOr x))
+
+def opLine (st : St) (kf model spec : String) : String := if st.toldSpec then withSpecKf kf model spec else model
+
 def stepOp (st : St) : List String → St × String
   | ["keyed", _, k, ts] =>
     let r := st.op.keyed (hexOr k) (parseInts ts)
     let c := specComposite st.ids st.msgs
-    ({ st with op := r.1 }, withSpec s!"c={r.1.reg.wm} {showReqs r.2}" s!"c={c} {showReqs (retold c r.2)}")
+    ({ st with op := r.1 }, opLine st (toldKf st.msgs) s!"c={r.1.reg.wm} {showReqs r.2}" s!"c={c} {showReqs (retold c r.2)}")
   | ["complete", i] =>
     -- `SourceComplete` of a runner: flushes the batch; the runner's latest watermark keeps counting
     let r := st.op.complete s!"sr{natOr i}"
     let c := specComposite st.ids st.msgs
-    ({ st with op := r.1 }, withSpec s!"c={r.1.reg.wm} {showReqs r.2}" s!"c={c} {showReqs (retold c r.2)}")
+    ({ st with op := r.1 }, opLine st (toldKf st.msgs) s!"c={r.1.reg.wm} {showReqs r.2}" s!"c={c} {showReqs (retold c r.2)}")
   | ["redeploy"] =>
     -- `HandleDeploy` again on the same operator (fresh storage): new registry, no runner has reported
-    ({ st with op := st.op.redeploy (Store.new [] st.kgc 0 st.kgc 1073741824) st.ids, msgs := [] }, "ok")
+    ({ st with op := st.op.redeploy (Store.new [] st.kgc 0 st.kgc st.cache) st.ids, msgs := [] }, "ok")
+  | ["barrier"] =>
+    -- barriers of all runners: the batch is flushed, then the DB is checkpointed
+    let r := st.op.barrier
+    let c := specComposite st.ids st.msgs
+    ({ st with op := r.1, ckptDb := some r.1.reg.store.db },
+      opLine st (toldKf st.msgs) s!"c={r.1.reg.wm} {showReqs r.2}" s!"c={c} {showReqs (retold c r.2)}")
+  | ["recover"] =>
+    -- `HandleDeploy` again with the last checkpoint: fresh caches and registry over the checkpointed DB content
+    match st.ckptDb with
+    | none => (st, "nockpt")
+    | some db => ({ st with op := st.op.redeploy (Store.new db st.kgc 0 st.kgc st.cache) st.ids, msgs := [] }, "ok")
   | ["wm", i, t] =>
     let r := st.op.watermark s!"sr{natOr i}" (intOr t)
     let msgs := st.msgs ++ [(s!"sr{natOr i}", intOr t)]
     let c := specComposite st.ids msgs
-    ({ st with op := r.1, msgs := msgs }, withSpec s!"c={r.1.reg.wm} {showReqs r.2}" s!"c={c} {showReqs (retold c r.2)}")
+    ({ st with op := r.1, msgs := msgs }, opLine st (toldKf msgs) s!"c={r.1.reg.wm} {showReqs r.2}" s!"c={c} {showReqs (retold c r.2)}")
   | _ => (st, "bad-op")
 
 def step (st : St) : List String → St × String
-  | "lread" :: raws => ({ st with loopEvs := st.loopEvs ++ raws.map parseRaw }, "ok")
+  | "lread" :: raws => ({ st with loopEvs := st.loopEvs ++ raws.map (parseRawK st.loopK) }, "ok")
   | ["ltick"] => ({ st with loopEvs := st.loopEvs ++ [.tick] }, "ok")
   | ["ldrain"] =>
-    let d := Wm.delivered st.loopN (Wm.Watermarker.new 0) st.loopEvs
-    let line (l : List Wm.SEv) := if (l.drop st.loopShown).isEmpty then "-" else joinWith "," ((l.drop st.loopShown).map showSEv)
-    ({ st with loopShown := d.length }, withSpec (line d) (line (respec Wm.zeroTime d)))
+    let k := if st.loopK = 0 then 1 else st.loopK
+    let b := Wm.batchSize st.loopN
+    let tagged := Wm.sentTagged st.loopW (Wm.sentPrefixK (Wm.rawCountK st.loopEvs / b * b) st.loopEvs)
+    let spec := respecTagged st.loopMax tagged
+    let ds := (List.range k).map fun j => Wm.deliveredTo st.loopN st.loopW st.loopEvs j
+    let shown (j : Nat) := st.loopShown.getD j 0
+    let line (l : List Wm.SEv) (j : Nat) := if (l.drop (shown j)).isEmpty then "-" else joinWith "," ((l.drop (shown j)).map showSEv)
+    let model := joinWith " | " ((List.range k).map fun j => line (ds.getD j []) j)
+    let specLine := joinWith " | " ((List.range k).map fun j => line ((Wm.streamOf j spec).take (ds.getD j []).length) j)
+    ({ st with loopShown := ds.map (·.length) }, withSpec model specLine)
+  | ["ldeploy"] =>
+    -- `HandleDeploy` again on the same runner: new operator cluster (empty batchers), the watermarker is kept
+    let b := Wm.batchSize st.loopN
+    let tagged := Wm.sentTagged st.loopW (Wm.sentPrefixK (Wm.rawCountK st.loopEvs / b * b) st.loopEvs)
+    ({ st with loopW := Wm.stateAfterSent st.loopN st.loopW st.loopEvs, loopMax := maxEvTagged st.loopMax tagged,
+               loopEvs := [], loopShown := [] }, "ok")
   | "evs" :: ts =>
     ({ st with w := (Wm.runnerStep st.w (.events (ts.map intOr))).1,
                maxSeen := (ts.map intOr).foldl (fun m x => if x > m then x else m) st.maxSeen }, "ok")
